@@ -41,6 +41,7 @@ import ast
 from typing import Dict, List, Tuple
 
 from engines import c0506facts as cf
+from engines import c06c14sql as sq
 from engines import jobgraphfacts as jg
 from engines import pyfacts as pf
 from engines import sqlfront as sf
@@ -342,16 +343,9 @@ def r5(ctx: Ctx) -> None:
         st = e.stmts()[0]
         ctx.need(not e.parse_error and st.kind == 'select', f'{rel}::{q}: reader query does not parse')
         cons = f'{rel}::{q}'
-        cols = {(al or text(c).split('.')[-1]).lower(): text(c).lower() for c, al in st.cols}
-        star = any(c.kind == 'star' and (c.table or '').lower() in (TALLY,) for c, _ in st.cols)
-        okc = star or all(cols.get(t) == f'{TALLY}.{t}' for t in TALLIES)
-        on = []
-        for j in st.frm.joins:
-            if j.ref.kind == 'table' and j.ref.name.lower() == TALLY:
-                on = [text(c).lower() for c in sf.conjuncts(j.on)]
-        okj = any(x in on for x in (f'(job_groups.batch_id = {TALLY}.id)', f'({TALLY}.id = job_groups.batch_id)', f'(batches.id = {TALLY}.id)', f'({TALLY}.id = batches.id)')) and \
-            any(x in on for x in (f'(job_groups.job_group_id = {TALLY}.job_group_id)', f'({TALLY}.job_group_id = job_groups.job_group_id)'))
-        ctx.check(okc and okj, 'R5', cons + '::tally source', f'the reported counts are not read from {TALLY} joined on the entity\'s own (batch_id, job_group_id) (ON {on})', m.path, e.lineno)
+        verdict, why = _tally_source(st, e, fn)
+        ctx.need(verdict != 'unknown', f'{cons}: {why}')
+        ctx.check(verdict == 'ok', 'R5', cons + '::tally source', f'the reported counts are not read from {TALLY} joined on the entity\'s own (batch_id, job_group_id): {why}', m.path, e.lineno)
         # EVERY query of the reader whose rows reach a record -> dict converter reads the tallies (a second, cheaper query for batches the process
         # believes finished would report counts that are not the counts over the jobs)
         sp = _status_prov(m)[1]
@@ -360,6 +354,7 @@ def r5(ctx: Ctx) -> None:
             if any(qi.emb.call is x for x in seen_calls) or qi.emb.call.lineno not in sp.status_lines or qi.emb is e:
                 continue
             seen_calls.append(qi.emb.call)
+            ctx.need(qi.emb.sql_text is not None, f'{cons}: the text of a second query of {q} (line {qi.emb.call.lineno}) that feeds the record -> dict converter is not resolvable')
             if not (qi.emb.sql_text and TALLY in qi.emb.sql_text):
                 ctx.bad('R5', cons + '::every status query reads the tallies', f'a second query of {q} feeds the record -> dict converter without reading {TALLY}: '
                         f'`{(qi.emb.sql_text or "<not a literal>").strip()[:120]}`: on that path n_completed / n_succeeded / n_failed / n_cancelled (and with them state / complete) are not the counts over the jobs', m.path, qi.emb.call.lineno)
@@ -371,10 +366,144 @@ def r5(ctx: Ctx) -> None:
             if isinstance(n, ast.Dict) and any(pf.const_str(k) == 'n_completed' for k in n.keys if k is not None):
                 d = n
         ctx.need(d is not None, f'{fname}: result dict not found')
-        got = {pf.const_str(k): pf.nsrc(v) for k, v in zip(d.keys, d.values) if k is not None and pf.const_str(k) in TALLIES + ['n_jobs', 'complete']}
-        want = {t: f"record['{t}']" for t in TALLIES + ['n_jobs']}
-        want['complete'] = "record['state'] == 'complete'"
-        ctx.check(got == want, 'R5', f'{bm.rel}::{fname}::copies counts', f'the API record reports {got}; expected the stored values unmodified {want}', bm.path, d.lineno)
+        ps = [a.arg for a in fn.args.posonlyargs + fn.args.args]
+        ctx.need(len(ps) >= 1, f'{fname}: no record parameter')
+        rec = ps[0]
+        ctx.need(len(pf.assignments(fn).get(rec, [])) == 1, f'{fname}: the record parameter `{rec}` is re-bound')
+        wrong = {}
+        for k, v in zip(d.keys, d.values):
+            key = pf.const_str(k) if k is not None else None
+            if key not in TALLIES + ['n_jobs', 'complete']:
+                continue
+            x = pf.expand_locals(fn, v)
+            if key == 'complete':
+                okv = isinstance(x, ast.Compare) and len(x.ops) == 1 and isinstance(x.ops[0], ast.Eq) and \
+                    sorted([_field_of(x.left, rec) or repr(pf.const_str(x.left)), _field_of(x.comparators[0], rec) or repr(pf.const_str(x.comparators[0]))]) == sorted(['state', repr('complete')])
+                decided = okv or isinstance(x, (ast.Compare, ast.Constant, ast.BoolOp)) or _field_of(x, rec) is not None
+            else:
+                okv = _field_of(x, rec) == key
+                # a copy of another field, arithmetic over fields, a constant: recognised and wrong; anything else (a conversion, a helper call) is not decided here
+                decided = okv or _field_of(x, rec) is not None or isinstance(x, (ast.BinOp, ast.Constant, ast.UnaryOp, ast.IfExp))
+            ctx.need(decided, f'{fname}: the value reported as {key!r} (`{pf.nsrc(v)}`) is not a recognised copy of a field of the record')
+            if not okv:
+                wrong[key] = pf.nsrc(v)
+        reported = {pf.const_str(k) for k in d.keys if k is not None}
+        ctx.need(set(TALLIES + ['n_jobs', 'complete']) <= reported, f'{fname}: the result dict does not report {sorted(set(TALLIES + ["n_jobs", "complete"]) - reported)}')
+        ctx.check(not wrong, 'R5', f'{bm.rel}::{fname}::copies counts', f'the API record reports {wrong}; expected the stored values unmodified (<record>[<same key>], complete = <record>[\'state\'] == \'complete\')', bm.path, d.lineno)
+
+
+def _field_of(x: ast.AST, rec: str):
+    """`<rec>['k']` -> k"""
+    if isinstance(x, ast.Subscript) and isinstance(x.value, ast.Name) and x.value.id == rec:
+        return pf.const_str(x.slice)
+    return None
+
+
+def _tally_source(st: N, e, fn: pf.FuncDef):
+    """Does the reader's SELECT take the four tallies from the tally table joined on the entity's own (batch id, job group id)?
+    Alias-independent: tables are resolved through the FROM clause, equalities may be written either way round and in any order, and
+    the two key equalities may sit in the ON clause of the tally join or (for an inner join) in WHERE.  The entity is the job_groups
+    row (for the batch: its root group) the statement selects; `X = %s` and `Y = %s` bound to the same python expression are equal.
+    -> ('ok' | 'bad' | 'unknown', why)"""
+    if st.frm is None:
+        return 'unknown', 'the reader query has no FROM clause'
+    refs = sf.from_tables(st.frm)
+    alias = {(r.alias or r.name).lower().strip('`'): r.name.lower() for r in refs if r.kind == 'table'}
+    tallies = [a for a, t in alias.items() if t == TALLY]
+    if len(tallies) != 1:
+        return 'unknown', f'{TALLY} appears {len(tallies)} times in the FROM clause of the reader query'
+    T = tallies[0]
+    bind = {}
+    try:
+        params = sr.params_in_order(st)
+        elts = sr.args_tuple(e.fn or fn, e.call.args[1] if len(e.call.args) > 1 else None)
+        if elts is not None and len(elts) == len(params):
+            bind = {p.pos: pf.nsrc(pf.expand_locals(e.fn or fn, x)) for p, x in zip(params, elts)}
+    except AnalysisError:
+        bind = {}
+
+    def node(x: N):
+        if x.kind == 'col':
+            parts = [p.lower().strip('`') for p in x.parts]
+            if len(parts) >= 2 and parts[-2] in alias:
+                return ('col', parts[-2], parts[-1])
+            return None
+        if x.kind == 'param' and x.pos in bind:
+            return ('val', bind[x.pos])
+        if x.kind == 'lit':
+            return ('val', repr(x.value))
+        return None
+    parent = {}
+
+    def find(x):
+        parent.setdefault(x, x)
+        while parent[x] != x:
+            parent[x] = parent[parent[x]]
+            x = parent[x]
+        return x
+    tj = None
+    for j in st.frm.joins:
+        if j.ref.kind == 'table' and (j.ref.alias or j.ref.name).lower().strip('`') == T:
+            tj = j
+    outer = tj is not None and any(w in (tj.jtype or '').upper() for w in ('LEFT', 'RIGHT'))
+    if tj is not None and 'RIGHT' in (tj.jtype or '').upper():
+        return 'unknown', 'the tally table is RIGHT-joined'
+    strange = []
+    sources = [(c, 'where') for c in sf.conjuncts(st.where)]
+    for j in st.frm.joins:
+        if j.on is not None:
+            sources += [(c, 'on-tally' if j is tj else 'on') for c in sf.conjuncts(j.on)]
+    for c, where in sources:
+        mentions_t = any(len(x.parts) >= 2 and x.parts[-2].lower().strip('`') == T for x in sf.cols_in(c))
+        if c.kind == 'bin' and c.op == '=':
+            a, b = node(c.left), node(c.right)
+            if a is not None and b is not None:
+                # an equality in WHERE does not tie an outer-joined tally row (it would reject the NULL-extended row instead): not this shape
+                if mentions_t and outer and where != 'on-tally':
+                    strange.append(text(c))
+                    continue
+                parent[find(a)] = find(b)
+                continue
+        if mentions_t:
+            strange.append(text(c))
+    if tj is None and st.frm.first.kind == 'table' and (st.frm.first.alias or st.frm.first.name).lower().strip('`') != T:
+        return 'unknown', 'the tally table is neither the first table nor brought in by a join'
+    # selected columns
+    star = any(c.kind == 'star' and (c.table or '').lower().strip('`') == T for c, _ in st.cols)
+    sel_problem = None
+    if not star:
+        out_cols = {}
+        for c, al in st.cols:
+            name = (al or (c.parts[-1] if c.kind == 'col' else '')).lower().strip('`')
+            if name:
+                out_cols[name] = c
+        for t in TALLIES:
+            c = out_cols.get(t)
+            if c is None:
+                if any(c2.kind == 'star' and not c2.table for c2, _ in st.cols):
+                    continue
+                return 'unknown', f'the reader query does not select a column named {t}'
+            n = node(c) if c.kind == 'col' else None
+            if c.kind == 'col' and n is None and len(c.parts) == 1:
+                return 'unknown', f'the selected column {t} is not qualified; cannot attribute it to a table'
+            if n != ('col', T, t):
+                sel_problem = f'`{text(c)}` is reported as {t}'
+    if sel_problem:
+        return 'bad', sel_problem
+    if strange:
+        return 'unknown', f'condition(s) {strange} on the tally table are not plain equalities'
+    ents = [a for a, t in alias.items() if t == 'job_groups']
+    if len(ents) != 1:
+        return 'unknown', f'job_groups appears {len(ents)} times in the FROM clause of the reader query'
+    E = ents[0]
+    batch_keys = {find(('col', E, 'batch_id'))} | {find(('col', a, 'id')) for a, t in alias.items() if t == 'batches'}
+    ok_b = find(('col', T, 'id')) in batch_keys
+    ok_g = find(('col', T, 'job_group_id')) == find(('col', E, 'job_group_id'))
+    if ok_b and ok_g:
+        return 'ok', ''
+    on = [text(c) for c in sf.conjuncts(tj.on)] if tj is not None and tj.on is not None else []
+    missing = ([] if ok_b else [f'{TALLY}.id = the entity\'s batch id']) + ([] if ok_g else [f'{TALLY}.job_group_id = the entity\'s job_group_id'])
+    return 'bad', f'the join of the tally table (ON {on}) lacks {" and ".join(missing)}: the counts of other groups / batches are joined to the reported row'
 
 
 def r6(ctx: Ctx, prog: sf.SqlProgram) -> None:
@@ -418,18 +547,15 @@ def r7(ctx: Ctx, prog: sf.SqlProgram) -> None:
     e, st = sites[0]
     efn = e.fn or fn
     args_node = e.call.args[1] if len(e.call.args) > 1 else None
-    comp = pf.resolve_expr(efn, args_node) if isinstance(args_node, ast.Name) else args_node
-    ctx.need(isinstance(comp, ast.ListComp) and len(comp.generators) == 1 and isinstance(comp.elt, ast.Tuple), f'_create_jobs: arguments of the {jg.STAGING} insert are not a list comprehension of tuples')
-    gen = comp.generators[0]
-    ctx.need(isinstance(gen.iter, ast.Call) and isinstance(gen.iter.func, ast.Attribute) and gen.iter.func.attr == 'items' and isinstance(gen.iter.func.value, ast.Name)
-             and isinstance(gen.target, ast.Tuple) and len(gen.target.elts) == 2 and isinstance(gen.target.elts[0], ast.Tuple) and isinstance(gen.target.elts[1], ast.Name) and not gen.ifs,
-             f'_create_jobs: the rows of the {jg.STAGING} insert are not built from `for (group, inst_coll), resources in <dict>.items()`')
-    acc = gen.iter.func.value.id
-    key_names = [pf.nsrc(x) for x in gen.target.elts[0].elts]
-    val_name = gen.target.elts[1].id
+    row = _rows_from_items(m, fn, efn, args_node)
+    ctx.need(row is not None, f'_create_jobs: the rows of the {jg.STAGING} insert are not built from `for (group, inst_coll), resources in <dict>.items()` (a list comprehension of tuples, or one '
+             'unconditional `.append((...))` per iteration of such a loop)')
+    elts, key_elts, val_name, acc = row  # type: ignore[misc]
+    key_names = [pf.nsrc(x) for x in key_elts]
     params = sr.params_in_order(st)
-    ctx.need(len(params) == len(comp.elt.elts), f'_create_jobs: {len(params)} parameters vs {len(comp.elt.elts)} tuple elements in the {jg.STAGING} insert')
-    bind = {id(p): pf.nsrc(x) for p, x in zip(params, comp.elt.elts)}
+    ctx.need(len(params) == len(elts), f'_create_jobs: {len(params)} parameters vs {len(elts)} tuple elements in the {jg.STAGING} insert')
+    # a tuple element that is a single-definition local stands for its definition (the loop variables have none)
+    bind = {id(p): pf.nsrc(pf.expand_locals(efn, x)) for p, x in zip(params, elts)}
     if st.select is None:
         # ---- roll-up in Python: alias analysis of the accumulator ----
         stores = [n for n in ast.walk(fn) if isinstance(n, ast.Assign) and len(n.targets) == 1 and isinstance(n.targets[0], ast.Subscript) and isinstance(n.targets[0].value, ast.Name) and n.targets[0].value.id == acc]
@@ -468,7 +594,10 @@ def r7(ctx: Ctx, prog: sf.SqlProgram) -> None:
         if x.kind == 'lit':
             return x.value
         raise jg.Undecided(text(x))
-    sel = jg.SelBuilder(jg.full_schema(prog), lambda n: False, value_of).build(sub.frm, sub.where)
+    try:
+        sel = jg.SelBuilder(jg.full_schema(prog), lambda n: False, value_of).build(sub.frm, sub.where)
+    except jg.Undecided as ex:
+        raise AnalysisError(f'_create_jobs: the selection of the {jg.STAGING} insert is not in the normal form this rule reads ({ex})')
     alias = list(sel.insts)[0]
     pins = {c: [v.name[3:] if isinstance(v, jg.Sym) else repr(v) for v in sel.pinned(alias, c)] for c in ('batch_id', 'job_group_id', 'ancestor_id', 'level')}
     okf = pins['job_group_id'] == [key_names[0]] and len(pins['batch_id']) == 1 and not pins['ancestor_id'] and not pins['level'] and not sel.residual \
@@ -481,27 +610,125 @@ def r7(ctx: Ctx, prog: sf.SqlProgram) -> None:
     d = dup.get('n_jobs')
     inc = sr.dup_increment('n_jobs', d, uvars) if d is not None else None
     okd = inc is not None and inc[0] == 1 and inc[1].kind == 'values_fn' and inc[1].col.lower() == 'n_jobs'
+    # `INSERT .. AS new ON DUPLICATE KEY UPDATE n_jobs = n_jobs + new.n_jobs` (row alias instead of VALUES()) is not read here
+    ctx.need(okd or inc is None or inc[1].kind != 'col' or len(inc[1].parts) < 2, f'_create_jobs: ON DUPLICATE KEY UPDATE `{text(d) if d is not None else None}` adds a qualified column (row alias?): not recognised')
+    if got != f"{val_name}['n_jobs']":
+        # recognised and wrong: another field of the counted value, a literal, another bound name; anything else (a conversion, .get(..)) is not decided here
+        import re as _re
+        ctx.need(got is not None and (_re.fullmatch(_re.escape(val_name) + r"\['\w+'\]", got) or _re.fullmatch(r"[\w.]+|-?\d+|'[^']*'", got)),
+                 f'_create_jobs: n_jobs of the staging row receives `{got}`: not a recognised copy of the counted value')
     ctx.check(got == f"{val_name}['n_jobs']" and okd, 'R7', f'{cons}::staged n_jobs is the counted value, accumulated', f'n_jobs of the staging row receives `{got}` (expected {val_name}[\'n_jobs\']) / '
               f'ON DUPLICATE KEY UPDATE `{text(d)}` (expected n_jobs = n_jobs + VALUES(n_jobs)): several bunches of one update, or several groups under one ancestor, must add up', m.path, e.lineno)
     # the counting site: += 1 once per job, unconditionally, under the job row's own group
-    incs = [n for n in ast.walk(fn) if isinstance(n, ast.AugAssign) and isinstance(n.op, ast.Add) and isinstance(n.target, ast.Subscript) and pf.const_str(n.target.slice) == 'n_jobs']
-    ctx.need(len(incs) == 1 and isinstance(incs[0].target.value, ast.Name), f'_create_jobs: expected one `<counts>[\'n_jobs\'] += ..` (found {len(incs)})')
-    inc_ = incs[0]
-    holder = pf.single_def(fn, inc_.target.value.id)
-    jobs_tuple = None
-    for n in pf.walk_shallow(fn):
-        if isinstance(n, ast.Call) and pf.dotted(n.func) == 'jobs_args.append' and isinstance(n.args[0], ast.Tuple):
-            jobs_tuple = n.args[0]
-    jst = [s2 for e2 in sf.embedded_in(m) if id(e2.call) in inner and not e2.parse_error for s2 in e2.stmts() if s2.kind == 'insert' and s2.table.lower() == 'jobs']
-    ctx.need(jobs_tuple is not None and len(jst) == 1 and jst[0].cols is not None and len(jst[0].cols) == len(jobs_tuple.elts), '_create_jobs: jobs insert / jobs_args tuple not found')
-    jmap = {c.lower(): pf.nsrc(x) for c, x in zip(jst[0].cols, jobs_tuple.elts)}
+    incs = _increments_of(fn, 'n_jobs')
+    ctx.need(len(incs) == 1, f'_create_jobs: expected one `<counts>[\'n_jobs\'] += ..` (found {len(incs)})')
+    inc_, inc_target, amount = incs[0]
+    base = inc_target.value
+    holder = pf.single_def(fn, base.id) if isinstance(base, ast.Name) else base
+    # the row of the jobs insert: the tuple appended to the list the INSERT INTO jobs is executed with (whatever the list is called)
+    jst = [(e2, s2) for e2 in sf.embedded_in(m) if id(e2.call) in inner and not e2.parse_error for s2 in e2.stmts() if s2.kind == 'insert' and s2.table.lower() == 'jobs']
+    ctx.need(len(jst) == 1 and jst[0][1].cols is not None and len(jst[0][0].call.args) > 1, '_create_jobs: jobs insert not found')
+    je, js = jst[0]
+    jobs_elts = None
+    jobs_append = None
+    for scope in ([je.fn] if je.fn is not None and je.fn is not fn else []) + [fn]:
+        a1 = je.call.args[1]
+        if isinstance(a1, ast.Name):
+            apps = [n for n in pf.walk_shallow(scope) if isinstance(n, ast.Call) and isinstance(n.func, ast.Attribute) and n.func.attr == 'append' and isinstance(n.func.value, ast.Name)
+                    and n.func.value.id == a1.id and len(n.args) == 1]
+            if len(apps) == 1 and isinstance(apps[0].args[0], ast.Tuple):
+                jobs_elts, jobs_append = list(apps[0].args[0].elts), apps[0]
+                break
+    ctx.need(jobs_elts is not None and len(js.cols) == len(jobs_elts), '_create_jobs: jobs insert / the tuple appended to its argument list not found')
+    jmap = {c.lower(): pf.nsrc(pf.expand_locals(fn, x)) for c, x in zip(js.cols, jobs_elts)}  # type: ignore[arg-type]
     loops = sr.enclosing_loops(m, inc_)
     ifs = sr.enclosing_ifs(m, inc_, stop=loops[0]) if loops else [('?', True)]
-    okc = isinstance(holder, ast.Subscript) and isinstance(holder.value, ast.Name) and holder.value.id == acc and isinstance(holder.slice, ast.Tuple) and \
-        pf.nsrc(holder.slice.elts[0]) == jmap.get('job_group_id') and isinstance(inc_.value, ast.Constant) and inc_.value.value == 1 and bool(loops) and not ifs
-    ctx.check(okc, 'R7', f'{cons}::every job counts once under its own group', f'`{pf.nsrc(inc_)}` with `{inc_.target.value.id} = {pf.nsrc(holder) if isinstance(holder, ast.AST) else holder}`'
-              f'{" under a condition (" + pf.nsrc(ifs[0][0].test) + ")" if ifs and ifs[0][0] != "?" else ""}: every submitted job must add exactly 1 under ({jmap.get("job_group_id")}, inst_coll) in `{acc}`, '
+    ctx.need(isinstance(holder, ast.Subscript) and isinstance(holder.value, ast.Name) and isinstance(holder.slice, ast.Tuple) and len(holder.slice.elts) == 2,
+             f'_create_jobs: the counted slot `{pf.nsrc(holder) if isinstance(holder, ast.AST) else holder}` is not `<dict>[(group, inst_coll)]`')
+    ctx.need(holder.value.id == acc, f'_create_jobs: the counted mapping `{holder.value.id}` is not the mapping the staging rows are built from (`{acc}`)')  # type: ignore[union-attr]
+    key_src = pf.nsrc(pf.expand_locals(fn, holder.slice.elts[0]))  # type: ignore[union-attr]
+    same_key = key_src == jmap.get('job_group_id')
+    if not same_key:
+        # two spellings that differ may still denote the same value (a conversion, a different path to the same field): only plain names decide
+        k1, k2 = pf.expand_locals(fn, holder.slice.elts[0]), jobs_elts[[c.lower() for c in js.cols].index('job_group_id')] if 'job_group_id' in [c.lower() for c in js.cols] else None  # type: ignore[union-attr,index]
+        ctx.need(k2 is not None and isinstance(k1, ast.Name) and isinstance(pf.expand_locals(fn, k2), ast.Name), f'_create_jobs: cannot compare the counted group `{key_src}` with the job row\'s job_group_id `{jmap.get("job_group_id")}`')
+    ctx.need(isinstance(amount, ast.Constant) and isinstance(amount.value, int), f'_create_jobs: `{pf.nsrc(inc_)}` does not add a literal')
+    # every iteration that produces a job row also counts it: no way round the loop through the row's append that avoids the increment
+    skipped = False
+    if loops and jobs_append is not None and sr.enclosing_loops(m, jobs_append)[:1] == loops[:1]:
+        g = pf.cfg(fn)
+        heads = [n for n in g.nodes if n.kind == 'loop' and n.ast is loops[0]]
+        incn = g.node_of(inc_)
+        appn = g.node_of(jobs_append)
+        if len(heads) == 1 and len(incn) == 1 and len(appn) == 1 and incn[0] is not appn[0]:
+            h0, i0, a0 = heads[0], incn[0], appn[0]
+            skipped = g.path_avoiding(h0, lambda x: x is a0, lambda x: x is i0) is not None and g.path_avoiding(a0, lambda x: x is h0, lambda x: x is i0) is not None
+    okc = same_key and amount.value == 1 and bool(loops) and not ifs and not skipped  # type: ignore[union-attr]
+    ctx.check(okc, 'R7', f'{cons}::every job counts once under its own group', f'`{pf.nsrc(inc_)}` with `{pf.nsrc(base)} = {pf.nsrc(holder) if isinstance(holder, ast.AST) else holder}`'
+              f'{" under a condition (" + pf.nsrc(ifs[0][0].test) + ")" if ifs and ifs[0][0] != "?" else (" which some iterations that append a job row skip" if skipped else "")}: every submitted job must add exactly 1 under ({jmap.get("job_group_id")}, inst_coll) in `{acc}`, '
               'the mapping the staging rows are built from', m.path, inc_.lineno)
+
+
+def _rows_from_items(m: pf.Module, fn: pf.FuncDef, efn: pf.FuncDef, args_node):
+    """The argument rows of an execute_many built from a mapping: (tuple elements, key elements, name bound to the value, mapping name) for
+        [ (..) for (k0, k1), v in <acc>.items() ]                                  (inline or through a single-definition local)
+        rows = []; for (k0, k1), v in <acc>.items(): rows.append((..))             (one unconditional append, one enclosing loop)
+    None for any other shape."""
+    def header(target, it):
+        if isinstance(it, ast.Call) and isinstance(it.func, ast.Attribute) and it.func.attr == 'items' and not it.args and isinstance(it.func.value, ast.Name) \
+                and isinstance(target, ast.Tuple) and len(target.elts) == 2 and isinstance(target.elts[0], ast.Tuple) and isinstance(target.elts[1], ast.Name):
+            return list(target.elts[0].elts), target.elts[1].id, it.func.value.id
+        return None
+    comp = args_node
+    scopes = [efn] + ([fn] if fn is not efn else [])
+    if isinstance(comp, ast.Name):
+        name = comp.id
+        comp = None
+        for sc in scopes:
+            d = pf.single_def(sc, name)
+            if isinstance(d, ast.ListComp):
+                comp = d
+                break
+            if isinstance(d, ast.List) and not d.elts:
+                apps = [n for n in pf.walk_shallow(sc) if isinstance(n, ast.Call) and isinstance(n.func, ast.Attribute) and n.func.attr == 'append' and isinstance(n.func.value, ast.Name)
+                        and n.func.value.id == name and len(n.args) == 1]
+                others = [n for n in pf.walk_shallow(sc) if isinstance(n, ast.Call) and isinstance(n.func, ast.Attribute) and n.func.attr in ('extend', 'insert', '__iadd__') and isinstance(n.func.value, ast.Name)
+                          and n.func.value.id == name] + [n for n in pf.walk_shallow(sc) if isinstance(n, ast.AugAssign) and isinstance(n.target, ast.Name) and n.target.id == name]
+                if len(apps) != 1 or others or not isinstance(apps[0].args[0], ast.Tuple):
+                    return None
+                loops = sr.enclosing_loops(m, apps[0])
+                if len(loops) != 1 or loops[0].orelse or sr.enclosing_ifs(m, apps[0], stop=loops[0]):
+                    return None
+                # no way through the loop body that avoids the append (continue / break / early return)
+                if any(isinstance(x, (ast.Continue, ast.Break, ast.Return)) for x in ast.walk(loops[0])):
+                    return None
+                h = header(loops[0].target, loops[0].iter)
+                if h is None:
+                    return None
+                return (list(apps[0].args[0].elts),) + h
+            if d is not None:
+                return None
+    if isinstance(comp, ast.ListComp) and len(comp.generators) == 1 and isinstance(comp.elt, ast.Tuple) and not comp.generators[0].ifs and not comp.generators[0].is_async:
+        h = header(comp.generators[0].target, comp.generators[0].iter)
+        if h is not None:
+            return (list(comp.elt.elts),) + h
+    return None
+
+
+def _increments_of(fn: pf.FuncDef, key: str):
+    """(statement, target subscript, amount) for `<x>['key'] += a` and the equivalent `<x>['key'] = <x>['key'] + a` / `a + <x>['key']`."""
+    out = []
+    for n in ast.walk(fn):
+        if isinstance(n, ast.AugAssign) and isinstance(n.op, ast.Add) and isinstance(n.target, ast.Subscript) and pf.const_str(n.target.slice) == key:
+            out.append((n, n.target, n.value))
+        elif isinstance(n, ast.Assign) and len(n.targets) == 1 and isinstance(n.targets[0], ast.Subscript) and pf.const_str(n.targets[0].slice) == key \
+                and isinstance(n.value, ast.BinOp) and isinstance(n.value.op, ast.Add):
+            t = pf.nsrc(n.targets[0])
+            if pf.nsrc(n.value.left) == t:
+                out.append((n, n.targets[0], n.value.right))
+            elif pf.nsrc(n.value.right) == t:
+                out.append((n, n.targets[0], n.value.left))
+    return out
 
 
 _SP_CACHE: Dict[str, tuple] = {}
@@ -582,6 +809,8 @@ def run(ctx: Ctx) -> None:
              'read back from state that outlives the request and into which status is stored (who may store: interprocedural); none is memoised', 16)
     ctx.assume('functions imported from outside the batch package (json_response, render_template, ...) are pure in the sense that they answer from their arguments only; functions imported by name from modules of '
                'the batch package are analysed')
+    # statement texts moved into module constants / bound to a local first are read like literals by everything below
+    ctx.unit('sql_texts_resolved_through_constants', sq.upgrade_embedded(pf.load('batch/batch/front_end/front_end.py')))
     prog = sf.load_program()
     # every rule is evaluated even when an earlier one declines: a violation established by a recognised shape is reported, otherwise the first decline stands
     first = None
